@@ -19,6 +19,11 @@ CHECKS = {
     text="Generated read sets (gapped / paired-like reads, preferred sources, bridging on/off, caps 1-7) are run through readselection; the oracle recounts span coverage and checks subset, cap and maximality. Thousands of distinct at-the-cap cases per run; no proof of absence.",
     note="Trusted: the interval-counting oracle; reads cover >= 2 variants (documented precondition).",
     ref="DESIGN.md section 4, C07"),
+ "C01": dict(
+    technique="property-based testing (Hypothesis) and exhaustive small-scope enumeration of PedigreeDPTable against a brute-force PedMEC oracle (cost, witness, tie rule)",
+    text="Generated read matrices x pedigrees (single, unrelated, trio, quartet, three generations) x genotype/likelihood modes x recombination costs are solved by the real DP table and by an exponential brute force; cost, returned witness and per-column tie flags are compared. All matrices up to 3 reads x 3 columns are enumerated in the thorough tier. Bounded: <= 8 reads, <= 10 columns, <= 2 trios.",
+    note="Trusted: the brute-force objective in vlib/oracles.py (definition of weighted PedMEC as implemented by the column cost definition in the paper/code comments); instances respect the constructor's documented preconditions (sorted reads, positions superset).",
+    ref="DESIGN.md section 4, C01"),
 }
 
 NOT_YET = {}
